@@ -487,15 +487,19 @@ void cmi_dataset_histogram_fill(struct cmi_dataset_histogram *hp,
     /* Distribute x-values to bins */
     for (uint64_t ui = 0u; ui < n; ui++) {
         /* In what bin does this x-value belong? */
-        uint16_t bin;
+        unsigned bin;
         if (xa[ui] < hp->low_lim) {
             bin = 0u;
         }
         else if (xa[ui] > hp->high_lim) {
             bin = hp->num_bins - 1u;
         }
+        else if (hp->binsize > 0.0) {
+            bin = 1u + (unsigned)((xa[ui] - hp->low_lim) / hp->binsize);
+        }
         else {
-            bin = 1u + (uint16_t)((xa[ui] - hp->low_lim) / hp->binsize);
+            /* Zero range (all samples equal), everything is in the first bin */
+            bin = 1u;
         }
 
         /* Add it to that bin and note the high-water mark */
@@ -517,7 +521,8 @@ void cmi_dataset_histogram_print(const struct cmi_dataset_histogram *hp,
 
     /* Max width of the histogram bars */
     const uint16_t max_stars = 50u;
-    const double scale = hp->binmax / (double)max_stars;
+    /* All bins may be empty (e.g. a time series without any duration) */
+    const double scale = (hp->binmax > 0.0) ? hp->binmax / (double)max_stars : 1.0;
 
     /* Print the histogram */
     data_print_line(fp, symbol_thin, line_length);
@@ -570,9 +575,10 @@ void cmb_dataset_histogram_print(const struct cmb_dataset *dsp,
         high_lim = dsp->max;
     }
 
-    const unsigned datarange = (unsigned)ceil(high_lim - low_lim);
-    if (datarange < num_bins) {
-        num_bins = (datarange > 0u) ? datarange : 1u;
+    /* Compare as doubles, the range may exceed what an unsigned can hold */
+    const double datarange = ceil(high_lim - low_lim);
+    if (datarange < (double)num_bins) {
+        num_bins = (datarange > 0.0) ? (unsigned)datarange : 1u;
     }
 
     struct cmi_dataset_histogram *hp = NULL;
